@@ -5,8 +5,8 @@ from vlib.core import Ctx, hexs, unhex, ddmin, load_known_findings
 ID = "C19"
 MODULES = ["IoraModel.Props.C19"]
 LEANCHECK = ["IoraModel.Props.C19", "IoraModel.Lemmas.Dns", "IoraModel.Lemmas.DnsSafe", "IoraModel.Lemmas.DnsName", "IoraModel.Lemmas.DnsRoundtrip",
-             "IoraModel.Lemmas.DnsRecords", "IoraModel.Lemmas.DnsMessage", "IoraModel.Lemmas.DnsTyped", "IoraModel.Lemmas.DnsWork", "IoraModel.Lemmas.DnsCache", "IoraModel.Lemmas.DnsTransport",
-             "IoraModel.Model.Dns", "IoraModel.Model.DnsCache", "IoraModel.Model.DnsTransport", "IoraModel.Spec.DnsWire"]
+             "IoraModel.Lemmas.DnsRecords", "IoraModel.Lemmas.DnsMessage", "IoraModel.Lemmas.DnsTyped", "IoraModel.Lemmas.DnsWork", "IoraModel.Lemmas.DnsCache", "IoraModel.Lemmas.DnsTransport", "IoraModel.Lemmas.DnsSoa", "IoraModel.Lemmas.DnsNaptr", "IoraModel.Lemmas.DnsTcp", "IoraModel.Lemmas.DnsTcpHandle",
+             "IoraModel.Model.DnsTcp", "IoraModel.Model.Dns", "IoraModel.Model.DnsCache", "IoraModel.Model.DnsTransport", "IoraModel.Spec.DnsWire"]
 OBLIGATIONS = [
     {"id": "C19_N1a", "theorem": "Iora.C19.N1_sound", "kind": "proved",
      "statement": "WellFormedName m off ls next (RFC 1035 relation for any layout of compression pointers + RFC limit 255 octets incl. root + at most 128 pointers followed) -> decodeName m off = ok (dotted ls, next)"},
@@ -30,6 +30,9 @@ OBLIGATIONS = [
     {"id": "C19_N3_name", "theorem": "Iora.C19.N3_name_no_oob", "kind": "proved", "statement": "decodeName never reads out of range, any offset"},
     {"id": "C19_N3_rdata", "theorem": "Iora.C19.N3_rdataName_no_oob", "kind": "proved", "statement": "decodeNameFromRdata never reads out of range, arbitrary arguments"},
     {"id": "C19_N4a", "theorem": "Iora.C19.N4_name_fuel", "kind": "proved", "statement": "decodeName never exhausts its fuel, arbitrary bytes"},
+    {"id": "C19_N4a_visited", "theorem": "Iora.C19.N4_name_visited_safe", "kind": "proved",
+     "statement": "the public decodeNameWithLoopDetection with ANY caller-supplied visited set: no out-of-range read, fuel never exhausted"},
+    {"id": "C19_N4a_visited0", "theorem": "Iora.C19.N4_name_visited_empty", "kind": "proved", "statement": "with the empty visited set it is decodeName (rfl)"},
     {"id": "C19_N4a_const", "theorem": "Iora.C19.N4_name_iterations_constant", "kind": "proved", "statement": "that fuel is the constant 257: the cost of one name does not depend on the message"},
     {"id": "C19_N4b", "theorem": "Iora.C19.N4_parse_fuel", "kind": "proved", "statement": "parse never exhausts fuel"},
     {"id": "C19_N4d", "theorem": "Iora.C19.N4_message_rounds_linear", "kind": "proved",
@@ -54,15 +57,28 @@ OBLIGATIONS = [
     {"id": "C19_N2_txt", "theorem": "Iora.C19.N2_txt_exact", "kind": "proved", "statement": "any sequence of character strings decodes to exactly those strings"},
     {"id": "C19_N2_response", "theorem": "Iora.C19.N2_response", "kind": "partial", "finding": "F13A",
      "statement": "a response laid out per RFC 1035 4.1 with every question/owner name a WellFormedName (any compression; RFC length limit; <= 128 pointers per name) and no record tripping the A rule "
-                  "parses to exactly its header, questions and records; typed = per-record typedSpec (characterised per type for A/AAAA/TXT/CNAME/PTR/MX/SRV; SOA/NAPTR by lockstep only)"},
+                  "parses to exactly its header, questions and records; typed = per-record typedSpec (characterised per type for every typed record type: A/AAAA/TXT/CNAME/PTR/MX/SRV/SOA/NAPTR)"},
     {"id": "C19_N2_rdata_name", "theorem": "Iora.C19.N2_rdata_name", "kind": "proved",
-     "statement": "decodeNameFromRdata returns exactly the well-formed name (any compression layout; root name as a root label included) and the offset behind it"},
+     "statement": "decodeNameFromRdata returns exactly the well-formed name and the offset behind it: ANY compression layout, no side condition (root name as a root label or as a "
+                  "pointer to a root label, also the one in the last byte of the message: FC19f repaired)"},
+    {"id": "C19_N2_gen_rdptr", "theorem": "Iora.C19.N2_gen_rdata_pointer", "kind": "gen-conformance",
+     "statement": "Gen tripwire (rfl): the direct-pointer branch of decodeNameFromRdata tests `pointer < messageSize` (margin 0); the model's guard is DEFINED from this fact"},
+    {"id": "C19_N2_typed_soa", "theorem": "Iora.C19.N2_typed_soa", "kind": "proved",
+     "statement": "typed SOA = MNAME, RNAME (each compressed in any way) + exactly the five 32-bit numbers read behind them"},
+    {"id": "C19_N2_typed_soa_values", "theorem": "Iora.C19.N2_typed_soa_values", "kind": "proved",
+     "statement": "the same with RDATA = names ++ be32 serial ++ be32 refresh ++ be32 retry ++ be32 expire ++ be32 minimum: the typed record carries exactly those values"},
+    {"id": "C19_N2_typed_naptr", "theorem": "Iora.C19.N2_typed_naptr", "kind": "proved",
+     "statement": "typed NAPTR = order, preference, the three character strings (arbitrary octets, < 256 each) + the replacement name compressed in any way"},
+    {"id": "C19_N2_gen_types", "theorem": "Iora.C19.N2_gen_type_numbers", "kind": "gen-conformance",
+     "statement": "Gen tripwire: the record-type numbers the model's switch is written with are the values of enum class DnsType (A, AAAA, SRV, NAPTR, CNAME, MX, TXT, PTR, SOA, NS) and IN = 1"},
+    {"id": "C19_N1_gen_enc", "theorem": "Iora.C19.N1_gen_encode_shape", "kind": "gen-conformance",
+     "statement": "Gen tripwire (rfl): encodeName tests the 255-octet limit after the root label has been appended; the model's encoder is DEFINED from this fact"},
     {"id": "C19_N2_typed_a", "theorem": "Iora.C19.N2_typed_a", "kind": "proved", "statement": "typed A = its 4 octets"},
     {"id": "C19_N2_typed_aaaa", "theorem": "Iora.C19.N2_typed_aaaa", "kind": "proved", "statement": "typed AAAA = its 16 octets"},
     {"id": "C19_N2_typed_txt", "theorem": "Iora.C19.N2_typed_txt", "kind": "proved", "statement": "typed TXT = its character strings"},
     {"id": "C19_N2_typed_cname", "theorem": "Iora.C19.N2_typed_cname", "kind": "proved", "statement": "typed CNAME = the RDATA name, any compression within the limits"},
     {"id": "C19_N2_typed_ptr", "theorem": "Iora.C19.N2_typed_ptr", "kind": "proved", "statement": "typed PTR = the RDATA name, any compression within the limits"},
-    {"id": "C19_N2_typed_mx", "theorem": "Iora.C19.N2_typed_mx", "kind": "proved", "statement": "typed MX = preference + exchange name (incl. the null MX `0 .`), any compression within the limits"},
+    {"id": "C19_N2_typed_mx", "theorem": "Iora.C19.N2_typed_mx", "kind": "proved", "statement": "typed MX = preference + exchange name (incl. the null MX `0 .` and a pointer to a root label), any compression within the limits"},
     {"id": "C19_N2_typed_srv", "theorem": "Iora.C19.N2_typed_srv", "kind": "proved", "statement": "typed SRV = priority, weight, port + target name (incl. target `.`), any compression within the limits"},
     {"id": "C19_N2_typed_none", "theorem": "Iora.C19.N2_typed_none", "kind": "proved", "statement": "types without a typed parser yield no typed record"},
     {"id": "C19_N6a", "theorem": "Iora.C19.N6_contained", "kind": "proved",
@@ -71,12 +87,39 @@ OBLIGATIONS = [
      "statement": "a rejected message of >= 2 bytes completes exactly the pending query keyed by its first two bytes with a parse error"},
     {"id": "C19_N6c", "theorem": "Iora.C19.N6_ok_completes", "kind": "proved",
      "statement": "an accepted message completes the pending query keyed by its first two bytes (= header id) with the parsed result"},
+    {"id": "C19_N6t_seg", "theorem": "Iora.C19.N6_tcp_segmentation", "kind": "proved",
+     "statement": "handleTcpData: EVERY segmentation of concat(be16 |m_i| ++ m_i) (messages non-empty, <= 65535, <= maxTcpBufferSize; no read trips the growth check) hands out exactly "
+                  "the m_i, in order, each with exactly its bytes, no close, empty buffer afterwards"},
+    {"id": "C19_N6t_seg_small", "theorem": "Iora.C19.N6_tcp_segmentation_small", "kind": "proved",
+     "statement": "the same with the model-independent hypothesis |stream| <= maxTcpBufferSize instead of Fits"},
+    {"id": "C19_N6t_exact", "theorem": "Iora.C19.N6_tcp_exact_size", "kind": "proved",
+     "statement": "a message handed out by one loop round is exactly the len bytes behind its prefix, inside the buffer, 0 < len <= maxTcpBufferSize; 2 + len bytes are popped (no over-read)"},
+    {"id": "C19_N6t_drain", "theorem": "Iora.C19.N6_tcp_loop_is_drain", "kind": "proved",
+     "statement": "the while loop of handleTcpData is the generic greedy drain of Common/Framing over frameAt, a parser stable on every buffer"},
+    {"id": "C19_N6t_zero", "theorem": "Iora.C19.N6_tcp_zero_length_closes", "kind": "proved", "statement": "a zero length prefix clears the buffer and closes the session"},
+    {"id": "C19_N6t_overflow", "theorem": "Iora.C19.N6_tcp_overflow_closes", "kind": "proved", "statement": "a read that would grow the buffer beyond maxTcpBufferSize clears it and closes the session"},
+    {"id": "C19_N6t_contained", "theorem": "Iora.C19.N6_tcp_contained", "kind": "proved",
+     "statement": "handleTcpData ends normally for arbitrary bytes, session ids, buffers, session tables and pending sets"},
+    {"id": "C19_N6u_contained", "theorem": "Iora.C19.N6_udp_contained", "kind": "proved", "statement": "handleUdpData likewise"},
+    {"id": "C19_N6f_contained", "theorem": "Iora.C19.N6_udp_both_contained", "kind": "proved",
+     "statement": "handleUdpData in transport mode Both (truncation -> TCP fallback) ends normally for arbitrary bytes and states"},
+    {"id": "C19_N6f_once", "theorem": "Iora.C19.N6_tc_falls_back_once", "kind": "proved",
+     "statement": "mode Both: a truncated UDP answer for a pending query that has not fallen back completes nothing, leaves the pending set unchanged, sets the flag and re-sends over TCP once"},
+    {"id": "C19_N6s", "theorem": "Iora.C19.N6_other_servers_untouched", "kind": "proved",
+     "statement": "a response from server:port s leaves every pending query addressed to another server:port pending (whatever its id) and adds none"},
+    {"id": "C19_N6_gen_tcp", "theorem": "Iora.C19.N6_gen_tcp_shape", "kind": "gen-conformance",
+     "statement": "Gen tripwire (rfl): the 13 reassembly steps of handleTcpData in source order (exact-size copy, processResponse(messageData.data(), messageLength), pop of 2 + messageLength), "
+                  "the 65535 limit, QueryKey == over (queryId, server, port), DnsCacheKey == over (qname, qtype, qclass)"},
     {"id": "C19_N6_q_refuted", "theorem": "Iora.C19.N6_question_checked_refuted", "kind": "refuted", "finding": "FC19e",
      "statement": "NOT (a response is accepted for a pending query only if its question section is the asked question): processResponse keys by (id, server, port) only, "
                   "and DnsResolver caches the result under the asked question without comparing"},
     {"id": "C19_N5", "theorem": "Iora.C19.N5_served_only_fresh", "kind": "proved",
      "statement": "for every history and clock: a served answer was stored under the same normalised key, TTL > 0, now < t + ttl, key untouched since"},
     {"id": "C19_N5b", "theorem": "Iora.C19.N5_put_ttl_is_minimum", "kind": "proved", "statement": "the TTL of put is <= the TTL of every record of the result"},
+    {"id": "C19_N5n", "theorem": "Iora.C19.N5_negative_ttl_le_soa", "kind": "proved",
+     "statement": "with a typed SOA in the result the negative-caching TTL is <= SOA.MINIMUM and <= the SOA record's TTL"},
+    {"id": "C19_N5n_fallback", "theorem": "Iora.C19.N5_negative_ttl_fallback", "kind": "proved",
+     "statement": "only when NO typed SOA exists (malformed SOA RDATA: a well-formed one always has its typed record by N2_typed_soa) the TTL is the raw TTL of the first authority SOA, else the default"},
     {"id": "C19_N5c", "theorem": "Iora.C19.N5_key_iff", "kind": "proved", "statement": "same key iff same type, class and ASCII-lower-cased name"},
     {"id": "C19_N5d", "theorem": "Iora.C19.N5_zero_ttl_guard", "kind": "gen-conformance", "statement": "Gen tripwire (rfl): TTL 0 is never stored (F14 repair); expiry comparison is strict"},
     {"id": "C19_N5_lock", "theorem": "Iora.C19.N5_lock_skeleton", "kind": "gen-conformance",
@@ -162,12 +205,13 @@ class Enc:
         self.n_ptr = 0
         self.n_high = 0        # pointers to offsets >= 0x0800
         self.n_fwd = 0
+        self.n_rootptr = 0     # pointers to a root label
         self.max_chain = 0
         self.depth = {}        # offset -> pointer hops needed from there
 
     def _reg(self, sfx, off, depth):
-        if off < 0x4000 and sfx:
-            self.sfx.setdefault(sfx, []).append(off)
+        if off < 0x4000:
+            self.sfx.setdefault(sfx, []).append(off)      # sfx == (): the offset of a root label (pointers to it are legal names too)
             self.depth[off] = depth
 
     def name(self, labels, compress=True):
@@ -203,6 +247,19 @@ class Enc:
             self.b.append(len(labels[i]))
             self.b += labels[i]
             i += 1
+        # the root: mostly the root label, sometimes (compressing encoders never do this, the wire format allows it) a POINTER to a root label
+        if compress and () in self.sfx and self.rng.below(100) < self.pc // 6:
+            off = self.rng.choice(self.sfx[()])
+            d = self.depth.get(off, 0) + 1
+            starts.append((n, len(self.b)))
+            self.b += bytes([0xC0 | (off >> 8), off & 255])
+            self.n_ptr += 1
+            self.n_rootptr += 1
+            self.max_chain = max(self.max_chain, d)
+            for (j, pos) in starts:
+                self._reg(tuple(labels[j:]), pos, d)
+            return
+        self._reg((), len(self.b), 0)
         self.b.append(0)
         for (j, pos) in starts:
             self._reg(tuple(labels[j:]), pos, 0)
@@ -411,7 +468,7 @@ def build_message(rng, p_compress=None, p_forward=None, nq=None, counts=None, ki
     if len(wire) > 65535:
         return None
     msg["wire"] = wire
-    msg["stats"] = {"pointers": enc.n_ptr, "forward": enc.n_fwd, "max_chain": enc.max_chain, "high_pointers": enc.n_high}
+    msg["stats"] = {"pointers": enc.n_ptr, "forward": enc.n_fwd, "max_chain": enc.max_chain, "high_pointers": enc.n_high, "root_pointers": enc.n_rootptr}
     msg["name_starts"] = enc.name_starts
     return msg
 
@@ -488,6 +545,13 @@ def gen_name_cases(rng, n):
         for off, nm, nxt in names:
             ops.append("name %s %d" % (hexs(wire), off))
             exp.append("ok %s %d" % (hx(dotted(nm)), nxt))
+        if i % 5 == 0:
+            # the public decodeNameWithLoopDetection with a caller-supplied visited set: offsets of names of this buffer (a pointer to one of
+            # them is then a "loop") and arbitrary 16-bit values; lockstep only (exp None), except the empty set = decodeName
+            for off, nm, nxt in names[:2]:
+                vs = sorted(set([rng.choice(names)[0] for _ in range(rng.choice([0, 1, 2]))] + [rng.below(65536) for _ in range(rng.choice([0, 1, 3]))]))
+                ops.append("namev %s %d %s" % (hexs(wire), off, ",".join(map(str, vs)) if vs else "-"))
+                exp.append("ok %s %d" % (hx(dotted(nm)), nxt) if not vs else None)
         cases.append({"cat": "name", "ops": ops, "expect": exp})
     return cases
 
@@ -614,6 +678,402 @@ def gen_transport_cases(rng, n):
         ops = ["resp %s %s %s" % (rng.choice(["udp", "tcp"]), ",".join(str(x) for x in sorted(pend)) if pend else "-", hexs(w))]
         cases.append({"cat": "transport", "ops": ops, "wire_id": wid, "pending": sorted(pend), "mut": kinds, "size": len(w)})
     return cases
+
+
+# ================================================================== root-label pointers inside RDATA (FC19f) and other layout blind spots
+def gen_rootptr_cases(rng, n):
+    """Well-formed responses whose RDATA names END IN (or ARE) a compression pointer to a ROOT label: backward to the root octet of the
+    question name, or FORWARD to the root label that is the very last byte of the message (`MX 0 .` / `CNAME .` as the last record).
+    Also: a direct RDATA pointer to offset size-2 (a 1-label name ... no: `00` preceded by one octet), SOA records outside the authority section."""
+    cases = []
+    for i in range(n):
+        enc = Enc(rng, 0, 0)
+        base = rand_name(rng) or [b"a"]
+        hid = rng.below(65536)
+        flags = rng.choice([0x8180, 0x8183, 0x8580])
+        counts = [rng.choice([0, 1, 2]), rng.choice([0, 1]), rng.choice([0, 1])]
+        if sum(counts) == 0:
+            counts[0] = 1
+        tail_kind = rng.choice(["mx0", "mx0", "cname-root", "none"])     # what the last record of the message is
+        msg = {"header": {"id": hid, "flags": flags, "qd": 1, "an": counts[0], "ns": counts[1], "ar": counts[2] + (tail_kind != "none")},
+               "questions": [], "an": [], "ns": [], "ar": []}
+        enc.u16(hid); enc.u16(flags); enc.u16(1); enc.u16(counts[0]); enc.u16(counts[1]); enc.u16(msg["header"]["ar"])
+        q = {"name": base, "type": rng.choice([1, 6, 15, 33, 255]), "cls": 1}
+        enc.name(base, False)
+        enc.u16(q["type"]); enc.u16(q["cls"])
+        msg["questions"].append(q)
+        qroot = 12 + wire_len(base)                  # offset of the root label of the question name
+        fwd = []                                     # positions of forward pointers to the last byte
+        kinds_seen = []
+
+        def put_name(labels):
+            """labels, then the root written as: root label | pointer back to the question's root label | forward pointer to the last byte"""
+            for l in labels:
+                enc.b.append(len(l)); enc.b += l
+            k = rng.choice(["label", "back", "back", "fwd", "fwd"]) if tail_kind != "none" else rng.choice(["label", "back", "back"])
+            kinds_seen.append(k + ("-bare" if not labels else ""))
+            if k == "label":
+                enc.b.append(0)
+            elif k == "back":
+                enc.b += bytes([0xC0 | (qroot >> 8), qroot & 255])
+            else:
+                fwd.append(len(enc.b))
+                enc.b += b"\xc0\x00"
+
+        def short_name():
+            return [rand_label(rng) for _ in range(rng.choice([0, 0, 1, 1, 2]))]
+
+        for sec, cnt in zip(("an", "ns", "ar"), counts):
+            for _ in range(cnt):
+                t = rng.choice([T_CNAME, T_PTR, T_NS, T_MX, T_SRV, T_SOA, T_SOA, T_NAPTR])   # SOA in every section, not only authority
+                r = {"name": rand_name(rng, base), "type": t, "cls": 1, "ttl": rand_ttl(rng), "spec": None}
+                enc.name(r["name"], False)
+                enc.u16(t); enc.u16(1); enc.u32(r["ttl"])
+                lenpos = len(enc.b)
+                enc.u16(0)
+                start = len(enc.b)
+                if t in (T_CNAME, T_PTR, T_NS):
+                    r["spec"] = {"target": short_name()}
+                    put_name(r["spec"]["target"])
+                elif t == T_MX:
+                    r["spec"] = {"pref": rng.below(65536), "target": short_name()}
+                    enc.u16(r["spec"]["pref"]); put_name(r["spec"]["target"])
+                elif t == T_SRV:
+                    r["spec"] = {"prio": rng.below(65536), "weight": rng.below(65536), "port": rng.below(65536), "target": short_name()}
+                    enc.u16(r["spec"]["prio"]); enc.u16(r["spec"]["weight"]); enc.u16(r["spec"]["port"]); put_name(r["spec"]["target"])
+                elif t == T_SOA:
+                    r["spec"] = {"mname": short_name(), "rname": short_name(), "serial": rng.below(2 ** 32), "refresh": rng.below(2 ** 32),
+                                 "retry": rand_ttl(rng), "expire": rand_ttl(rng), "minimum": rand_ttl(rng)}
+                    put_name(r["spec"]["mname"]); put_name(r["spec"]["rname"])
+                    for k in ("serial", "refresh", "retry", "expire", "minimum"):
+                        enc.u32(r["spec"][k])
+                else:
+                    r["spec"] = {"order": rng.below(65536), "pref": rng.below(65536), "flags": b"S", "service": b"SIP+D2U", "regexp": b"", "repl": short_name()}
+                    enc.u16(r["spec"]["order"]); enc.u16(r["spec"]["pref"])
+                    for k in ("flags", "service", "regexp"):
+                        enc.b.append(len(r["spec"][k])); enc.b += r["spec"][k]
+                    put_name(r["spec"]["repl"])
+                nlen = len(enc.b) - start
+                enc.b[lenpos:lenpos + 2] = nlen.to_bytes(2, "big")
+                r["rdata_start"], r["rdata_len"] = start, nlen
+                msg[sec].append(r)
+        if tail_kind != "none":
+            if tail_kind == "mx0":
+                r = {"name": [b"b"], "type": T_MX, "cls": 1, "ttl": 60, "spec": {"pref": 0, "target": []}}
+            else:
+                r = {"name": [b"b"], "type": T_CNAME, "cls": 1, "ttl": 60, "spec": {"target": []}}
+            enc.name(r["name"], False)
+            enc.u16(r["type"]); enc.u16(1); enc.u32(60)
+            rd = (b"\x00\x00" if tail_kind == "mx0" else b"") + b"\x00"
+            enc.u16(len(rd))
+            r["rdata_start"], r["rdata_len"] = len(enc.b), len(rd)
+            enc.b += rd
+            msg["ar"].append(r)
+        last = len(enc.b) - 1
+        for pos in fwd:
+            enc.b[pos:pos + 2] = bytes([0xC0 | (last >> 8), last & 255])
+        wire = bytes(enc.b)
+        for sec in ("an", "ns", "ar"):
+            for r in msg[sec]:
+                r["rdata"] = wire[r["rdata_start"]:r["rdata_start"] + r["rdata_len"]]
+        ops = ["parse " + hexs(wire)]
+        exp = [show_msg(msg)]
+        if i % 4 == 0:
+            ops.append("parsev " + hexs(wire)); exp.append(exp[0])          # the public vector wrapper
+        if fwd and i % 2 == 0:
+            # decodeNameFromRdata on its own with RDATA = the two pointer bytes: target = size-1 (root label) -> the root name
+            ops.append("rdname %s %d 0 2" % (hexs(wire), fwd[0])); exp.append("ok - 2")
+        cases.append({"cat": "rootptr", "ops": ops, "expect": exp, "root_kinds": kinds_seen, "fwd": len(fwd)})
+    # direct RDATA pointer to offset size-2: `01 'z'`?? no - to a one-octet label would need 3 bytes; size-2 holds `00` followed by one trailing octet
+    for t, pre, grp in ((T_CNAME, b"", "CNAME"), (T_PTR, b"", "PTR"), (T_MX, b"\x00\x07", "MX")):
+        for trailing in (0, 1, 2):
+            owner = b"\x01a\x00"
+            rd_start = 12 + len(owner) + 10
+            total = rd_start + len(pre) + 2 + 1 + trailing          # RDATA, then a root label octet, then `trailing` more octets
+            tgt = rd_start + len(pre) + 2
+            rdata = pre + bytes([0xC0 | (tgt >> 8), tgt & 255])
+            w = hdr(an=1) + owner + rr_fixed(t, 77, rdata) + b"\x00" + b"\x07" * trailing
+            raw = "61:%d:1:77:%d:%s" % (t, len(rdata), hexs(rdata))
+            groups = {k: "-" for k in ("A", "AAAA", "SRV", "NAPTR", "CNAME", "MX", "TXT", "PTR", "SOA")}
+            groups[grp] = "61:7:-:77" if t == T_MX else "61:-:77"
+            exp = "ok h=4660,1,0,0,0,1,1,0,0,0,1,0,0 q=- an=%s ns=- ar=- " % raw + " ".join("%s=%s" % (k, groups[k]) for k in ("A", "AAAA", "SRV", "NAPTR", "CNAME", "MX", "TXT", "PTR", "SOA"))
+            cases.append({"cat": "rootptr", "tag": "type %d RDATA pointer to the root label at offset size-%d" % (t, 1 + trailing), "ops": ["parse " + hexs(w)], "expect": [exp],
+                          "root_kinds": ["fwd-bare"], "fwd": 1})
+    return cases
+
+
+def gen_deep_chain_cases(rng, n):
+    """Valid responses whose record OWNER and RDATA names reach their labels through pointer chains of 10 - 128 hops (inside whole
+    messages, not only as bare `name` ops), and two 60 KB responses in the lockstep."""
+    cases = []
+    for i in range(n):
+        hops = rng.choice([10, 17, 60, 100, 127, 128])
+        # first record: opaque RDATA holding `03 'end' 00` and then a backward chain of `hops - 1` pointers
+        owner = b"\x00"
+        rd_start = 12 + len(owner) + 10
+        body = bytearray(b"\x03end\x00")
+        offs = [rd_start]
+        for _ in range(hops - 1):
+            off = rd_start + len(body)
+            body += bytes([0xC0 | (offs[-1] >> 8), offs[-1] & 255])
+            offs.append(off)
+        head = offs[-1]
+        ptr = bytes([0xC0 | (head >> 8), head & 255])           # following it = `hops` pointers in all
+        recs = [owner + rr_fixed(99, 1, bytes(body))]
+        raws = ["-:99:1:1:%d:%s" % (len(body), hexs(bytes(body)))]
+        typed = {k: [] for k in ("A", "AAAA", "SRV", "NAPTR", "CNAME", "MX", "TXT", "PTR", "SOA")}
+        # owner name through the chain + CNAME / MX RDATA through the chain
+        recs.append(ptr + rr_fixed(T_CNAME, 30, ptr)); raws.append("656e64:5:1:30:2:%s" % hexs(ptr)); typed["CNAME"].append("656e64:656e64:30")
+        mxrd = b"\x00\x05" + b"\x01m" + ptr
+        recs.append(ptr + rr_fixed(T_MX, 31, mxrd)); raws.append("656e64:15:1:31:%d:%s" % (len(mxrd), hexs(mxrd))); typed["MX"].append("656e64:5:6d2e656e64:31")
+        w = hdr(an=len(recs)) + b"".join(recs)
+        exp = "ok h=4660,1,0,0,0,1,1,0,0,0,%d,0,0 q=- an=%s ns=- ar=- " % (len(recs), ";".join(raws)) + " ".join("%s=%s" % (k, sep(typed[k])) for k in ("A", "AAAA", "SRV", "NAPTR", "CNAME", "MX", "TXT", "PTR", "SOA"))
+        if hops <= MAX_JUMPS - 0 and hops + 0 <= MAX_JUMPS:
+            cases.append({"cat": "chain", "tag": "valid message, owner and RDATA names through %d pointers" % hops, "ops": ["parse " + hexs(w)], "expect": [exp], "hops": hops})
+    for _ in range(2):
+        msg = None
+        while msg is None or len(msg["wire"]) < 50000:
+            msg = build_message(rng, p_compress=90, p_forward=0, counts=(rng.range(8, 14), 1, 1), ballast=rng.choice([52000, 60000]),
+                                kinds=[T_CNAME, T_MX, T_SRV, T_A, T_TXT, T_SOA])
+        cases.append({"cat": "valid-large", "ops": ["parse " + hexs(msg["wire"])], "expect": [show_msg(msg)], "carve": sorted(carve_out(msg)),
+                      "stats": msg["stats"], "size": len(msg["wire"]), "high_pointers": msg["stats"]["high_pointers"]})
+    return cases
+
+
+# ================================================================== TCP reassembly: the real handleTcpData / handleUdpData
+def be16(n):
+    return int(n).to_bytes(2, "big")
+
+
+def cut(rng, stream, mode):
+    """a segmentation of `stream`"""
+    n = len(stream)
+    if mode == "whole" or n == 0:
+        return [stream]
+    if mode == "bytes":
+        return [stream[i:i + 1] for i in range(n)]
+    if mode == "pairs":
+        return [stream[i:i + 2] for i in range(0, n, 2)]
+    k = rng.range(1, min(8, n))
+    points = sorted(set(rng.range(1, n - 1) for _ in range(k))) if n > 2 else []
+    out = []
+    a = 0
+    for pnt in points + [n]:
+        out.append(stream[a:pnt])
+        a = pnt
+    if rng.chance(1, 5):
+        out.insert(rng.below(len(out) + 1), b"")             # an empty read
+    return out
+
+
+def small_response(rng):
+    k = rng.below(10)
+    msg = None
+    while msg is None:
+        msg = build_message(rng, counts=(rng.choice([0, 1, 2]), rng.choice([0, 1]), 0))
+    w = msg["wire"]
+    if k < 6:
+        return w
+    if k < 8:
+        w, _ = mutate(rng, w, msg["name_starts"])
+        return w or b"\x00"
+    if k < 9:
+        return rng.bytes(rng.choice([1, 2, 3, 11, 12, 20]))
+    return w[:rng.choice([1, 2, 5, 12])]
+
+
+def gen_tcp_cases(rng, n):
+    """Streams of length-prefixed responses through the REAL handleTcpData: every cut point (byte by byte), random cuts, several
+    messages per read, cuts inside the length prefix; pending queries at three server:port pairs (same id at several servers);
+    plus `dirty` histories: zero / oversize length prefixes, reads that overflow maxTcpBufferSize, unknown sessions, handleClose
+    in mid-message, UDP datagrams in between."""
+    cases = []
+    SESS = {5: 0, 6: 1, 7: 2}
+    for ci in range(n):
+        if ci % 7 == 6:
+            cases.append(gen_fallback_case(rng))
+            continue
+        dirty = ci % 4 == 3
+        cap = rng.choice([65536, 65536, 65536, 4096, 700]) if not dirty else rng.choice([65536, 300, 64, 700])
+        ops = ["t reset %d %s" % (cap, rng.choice(["udp", "tcp"]))]
+        for sid, si in SESS.items():
+            ops.append("t sess %d %d" % (sid, si))
+        sid = rng.choice([5, 6, 7])
+        srv = SESS[sid]
+        msgs = []
+        for _ in range(rng.choice([1, 2, 2, 3, 4])):
+            m = small_response(rng)
+            if 2 + len(m) > cap // 2:
+                m = m[:max(1, cap // 4)]
+            msgs.append(m)
+        if rng.chance(1, 3) and len(msgs) >= 2 and len(msgs[0]) >= 2:
+            msgs[1] = msgs[0][:2] + msgs[1][2:] if len(msgs[1]) >= 2 else msgs[1]      # the same id twice in one stream
+        pend = set()
+        for m in msgs:
+            if len(m) >= 2:
+                wid = int.from_bytes(m[:2], "big")
+                if rng.chance(4, 5):
+                    pend.add((wid, srv))
+                if rng.chance(1, 3):
+                    pend.add((wid, (srv + 1) % 3))           # same id pending at ANOTHER server: must stay pending
+                if rng.chance(1, 8):
+                    pend.add((wid ^ 1, srv))
+        for _ in range(rng.choice([0, 1, 2])):
+            pend.add((rng.below(65536), rng.below(3)))
+        ops.append("t pend " + (",".join("%d@%d" % x for x in sorted(pend)) if pend else "-"))
+        stream = b"".join(be16(len(m)) + m for m in msgs)
+        if not dirty:
+            mode = rng.choice(["bytes", "bytes", "pairs", "random", "random", "random", "whole", "two-per-read"]) if len(stream) <= 400 else rng.choice(["random", "random", "whole", "two-per-read"])
+            if mode == "two-per-read":
+                segs = []
+                for j in range(0, len(msgs), 2):
+                    segs.append(b"".join(be16(len(m)) + m for m in msgs[j:j + 2]))
+            else:
+                segs = cut(rng, stream, mode)
+            # the growth check is per read: keep every read within the limit (hypothesis Fits of N6_tcp_segmentation)
+            if len(stream) > cap:
+                segs = [stream[j:j + cap // 4] for j in range(0, len(stream), cap // 4)]
+            for sg in segs:
+                ops.append("t tcp %d %s" % (sid, hexs(sg)))
+            cases.append({"cat": "tcp", "ops": ops, "msgs": [hexs(m) for m in msgs], "srv": srv, "sid": sid, "pending": sorted(pend), "mode": mode, "cap": cap,
+                          "n_msgs": len(msgs), "clean": True})
+        else:
+            kinds = []
+            segs = cut(rng, stream, "random")
+            for sg in segs:
+                k = rng.below(12)
+                if k == 0:
+                    ops.append("t tcp %d %s" % (sid, hexs(b"\x00\x00" + rng.bytes(rng.choice([0, 3])))))            # zero length prefix
+                    kinds.append("zero-length")
+                elif k == 1:
+                    big = cap + rng.choice([1, 2, 100])
+                    if big <= 65535:
+                        ops.append("t tcp %d %s" % (sid, hexs(be16(big))))                                      # announced length > maxTcpBufferSize
+                        kinds.append("length>cap")
+                elif k == 2 and cap <= 700:
+                    ops.append("t tcp %d %s" % (sid, hexs(rng.bytes(cap + 1 - rng.choice([0, 0, 1])))))            # a read that trips (or just fits) the growth check
+                    kinds.append("overflow")
+                elif k == 3:
+                    ops.append("t tcp 9 %s" % hexs(sg))                                                         # unknown session: popped and dropped
+                    kinds.append("unknown-session")
+                elif k == 4:
+                    ops.append("t close %d" % sid)                                                              # handleClose in mid-stream
+                    ops.append("t sess %d %d" % (sid, srv))
+                    kinds.append("close")
+                elif k == 5:
+                    m = small_response(rng)
+                    ops.append("t udp %d %s" % (rng.choice([5, 6, 7, 9]), hexs(m)))
+                    kinds.append("udp")
+                ops.append("t tcp %d %s" % (sid, hexs(sg)))
+            cases.append({"cat": "tcp", "ops": ops, "srv": srv, "sid": sid, "pending": sorted(pend), "mode": "dirty", "cap": cap, "kinds": kinds, "clean": False,
+                          "n_msgs": len(msgs)})
+    return cases
+
+
+def tiny_answer(hid, tc, rng):
+    """a minimal well-formed answer with the given id; TC bit as asked"""
+    flags = 0x8180 | (0x0200 if tc else 0)
+    if rng.chance(1, 2):
+        return hdr(hid, flags)
+    return hdr(hid, flags, an=1) + b"\x01a\x00" + rr_fixed(T_A, 60, bytes([10, 0, 0, rng.below(256)]))
+
+
+def gen_fallback_case(rng):
+    """transport mode Both: truncated UDP answers (TC = 1) make processResponse re-send the query over TCP (sendTcpQuery on the scripted
+    engine: sessions 1, 2, 3 are created on demand) instead of completing it; the TCP answer, a second truncated answer, non-truncated
+    answers, answers from the wrong server, handleClose of the fallback session."""
+    SESS = {5: 0, 6: 1, 7: 2}
+    ops = ["t reset 65536 both"] + ["t sess %d %d" % kv for kv in SESS.items()]
+    ids = [rng.below(65536) for _ in range(rng.choice([1, 2, 3]))]
+    pend = set((i, rng.below(3)) for i in ids)
+    if rng.chance(1, 2):
+        i0, s0 = sorted(pend)[0]
+        pend.add((i0, (s0 + 1) % 3))
+    ops.append("t pend " + ",".join("%d@%d" % x for x in sorted(pend)))
+    tc_ops = {}
+    for _ in range(rng.range(3, 10)):
+        hid, srv = rng.choice(sorted(pend))
+        k = rng.below(10)
+        usid = [s for s, v in SESS.items() if v == srv][0]
+        if k < 5:
+            tc_ops[len(ops)] = [hid, srv]
+            ops.append("t udp %d %s" % (usid, hexs(tiny_answer(hid, True, rng))))
+        elif k < 6:
+            ops.append("t udp %d %s" % (usid, hexs(tiny_answer(hid, False, rng))))
+        elif k < 8:
+            m = tiny_answer(hid, rng.chance(1, 4), rng)
+            ops.append("t tcp %d %s" % (rng.choice([1, 1, 2, 3]), hexs(be16(len(m)) + m)))       # the TCP answer on a fallback session (or one that does not exist yet)
+        elif k < 9:
+            ops.append("t close %d" % rng.choice([1, 2, 3]))
+        else:
+            ops.append("t pend %d@%d" % (hid, srv))
+    return {"cat": "tcp", "ops": ops, "clean": False, "mode": "fallback", "kinds": ["tc-fallback"], "tc_ops": tc_ops, "n_msgs": 0, "srv": 0, "sid": 5,
+            "pending": sorted(pend), "cap": 65536}
+
+
+def monitor_tcp(c, impl):
+    """N6 on the implementation's answers alone.  Reference = the SPEC of RFC 1035 4.2.2 applied to the whole stream (not an
+    incremental reassembly): message i completes the pending query (first two bytes, server of the session) iff it is pending then."""
+    bad = []
+    events = []
+    pend_now = None
+    fell_back = set()
+    tc_ops = {int(k): tuple(v) for k, v in (c.get("tc_ops") or {}).items()}
+    for oi, (op, l) in enumerate(zip(c["ops"], impl)):
+        if l.startswith("throw") or l.startswith("crash:") or l.startswith("ESCAPED"):
+            return ["N6: a failure escapes the data callback (%s): %s -> %s" % ("heap over-read / sanitizer abort" if "crash" in l else "exception", op[:100], l[:80])]
+        t = op.split()
+        if t[1] in ("tcp", "udp", "pend", "close"):
+            parts = l.split(" | ")
+            ev = [] if parts[0] == "-" else parts[0].split(";")
+            newp = parts[-1][len("pending="):]
+            newp = set() if newp == "-" else set(tuple(int(y) for y in x.split("@")) for x in newp.split(","))
+            if oi in tc_ops and pend_now is not None and tc_ops[oi] in pend_now and tc_ops[oi] not in fell_back:
+                # mode Both, first truncated answer for a pending query: re-sent over TCP, NOT completed
+                if any(e[0] in "RE" for e in ev) or sum(1 for e in ev if e[0] == "F") != 1 or tc_ops[oi] not in newp:
+                    bad.append("N6f: a truncated UDP answer (TC=1, transport mode Both) for the pending query %d@%d must be retried over TCP exactly once and not completed: %s -> %s"
+                               % (tc_ops[oi][0], tc_ops[oi][1], op[:80], l[:80]))
+                fell_back.add(tc_ops[oi])
+            if t[1] in ("tcp", "udp"):
+                for e in ev:
+                    f = e.split(":")
+                    if f[0] in ("R", "E"):
+                        key = tuple(int(y) for y in f[1].split("@"))
+                        if pend_now is not None and key not in pend_now:
+                            bad.append("N6: completed %s which was not pending: %s" % (f[1], op[:80]))
+                        events.append((f[0], key))
+                        fell_back.discard(key)
+                    elif f[0] == "C":
+                        events.append(("C", int(f[1])))
+                if pend_now is not None and not newp <= pend_now:
+                    bad.append("N6: the pending set grew during a data callback: %s" % op[:80])
+            pend_now = newp
+    if bad or not c.get("clean"):
+        return bad
+    srv = c["srv"]
+    pending = set(tuple(x) for x in c["pending"])
+    want = []
+    for mh in c["msgs"]:
+        m = unhex(mh)
+        if len(m) >= 2:
+            key = (int.from_bytes(m[:2], "big"), srv)
+            if key in pending:
+                pending.discard(key)
+                want.append(key)
+    got = [e[1] for e in events if e[0] in ("R", "E")]
+    if any(e[0] == "C" for e in events):
+        bad.append("N6t: a well-formed stream of %d length-prefixed messages (cut: %s) made the transport close the session" % (c["n_msgs"], c["mode"]))
+    elif got != want:
+        bad.append("N6t: a stream of %d length-prefixed messages (cut: %s) completed the queries %s, but the messages in it answer %s, in this order"
+                   % (c["n_msgs"], c["mode"], ["%d@%d" % k for k in got], ["%d@%d" % k for k in want]))
+    elif pend_now is not None and pend_now != pending:
+        bad.append("N6t: pending set after the stream is %s, expected %s" % (sorted(pend_now), sorted(pending)))
+    else:
+        last = impl[-1].split(" | ")
+        if len(last) == 3 and last[1] != "buf=0":
+            bad.append("N6t: %s bytes are left in the reassembly buffer after a complete stream" % last[1][4:])
+    return bad
+
 
 
 def monitor_transport(c, impl):
@@ -833,7 +1293,13 @@ def gen_query_cases(rng, n):
         if hid == 0:
             cases.append({"cat": "query", "ops": [op], "expect": ["xxxx" + hexs(wire)[4:]]})
         else:
-            cases.append({"cat": "query", "ops": [op, "parse " + hexs(wire)], "expect": [hexs(wire), dump]})
+            c = {"cat": "query", "ops": [op, "parse " + hexs(wire)], "expect": [hexs(wire), dump]}
+            if rd == 1 and i % 3 == 0:
+                # the public overloads: buildQuery(questions, id) sets RD; buildQuery(question, id) = one question
+                c["ops"].append("queryd %d" % hid + "".join(" %s %d %d" % (hexs(nm), t, cl) for nm, t, cl in qs)); c["expect"].append(hexs(wire))
+                if nq == 1:
+                    c["ops"].append("query1 %d %s %d %d" % (hid, hexs(qs[0][0]), qs[0][1], qs[0][2])); c["expect"].append(hexs(wire))
+            cases.append(c)
     for i in range(n // 2):
         nm = rand_text_name(rng)
         e, k = ref_encode_name(nm)
@@ -865,6 +1331,19 @@ def soa_msg(rng, hid, soa_ttl, minimum, with_soa=True, broken_soa=False, extra_t
     return bytes(enc.b)
 
 
+def soa_rootptr_msg(hid, soa_ttl, minimum):
+    """NXDOMAIN response whose SOA MNAME is a FORWARD pointer to the root label in the LAST byte of the message (the null MX `0 .`
+    of an additional record) — the FC19f shape chained to the negative-caching TTL."""
+    soa_rd_len = 2 + 1 + 20
+    rec1_start = 12
+    total = 12 + (3 + 10 + soa_rd_len) + (3 + 10 + 3)
+    last = total - 1
+    soa_rd = bytes([0xC0 | (last >> 8), last & 255]) + b"\x00" + b"".join(int(x).to_bytes(4, "big") for x in (1, 2, 3, 4, minimum))
+    w = hdr(hid, 0x8183, 0, 0, 1, 1) + b"\x01z\x00" + rr_fixed(T_SOA, soa_ttl, soa_rd) + b"\x01b\x00" + rr_fixed(T_MX, 60, b"\x00\x00\x00")
+    assert len(w) == total
+    return w
+
+
 def answer_msg(rng, hid, ttls):
     enc = Enc(rng, 100)
     enc.u16(hid); enc.u16(0x8180); enc.u16(0); enc.u16(len(ttls)); enc.u16(0); enc.u16(0)
@@ -894,8 +1373,8 @@ def gen_cache_cases(rng, n):
         for step in range(rng.range(6, 28)):
             k = rng.below(100)
             nm = rng.choice(NAMES[:6]) if rng.chance(3, 4) else rng.choice(NAMES)
-            qt = rng.choice([1, 1, 1, 28])
-            qc = rng.choice([1, 1, 1, 255])
+            qt = rng.choice([1, 1, 1, 28, 28, 33, 15, 6, 255, 0, 65535])
+            qc = rng.choice([1, 1, 1, 255, 3, 0, 65535])
             key = (lower(nm), qt, qc)
             qtxt = "%s %d %d" % (hexs(nm), qt, qc)
             if k < 28:
@@ -930,8 +1409,11 @@ def gen_cache_cases(rng, n):
                 else:
                     soa_ttl = rng.choice([0, 5, 60, 3600])
                     minimum = rng.choice([0, 1, 30, 60, 7200])
-                    mode = rng.below(4)
-                    if mode == 0:
+                    mode = rng.below(5)
+                    if mode == 4:
+                        w = soa_rootptr_msg(hid, soa_ttl, minimum)
+                        ttl = min(soa_ttl, minimum)
+                    elif mode == 0:
                         w = soa_msg(rng, hid, soa_ttl, minimum, with_soa=False)
                         ttl = cur_default
                     elif mode == 1:
@@ -966,7 +1448,7 @@ def gen_cache_cases(rng, n):
     return cases
 
 
-def monitor_cache(c, impl):
+def monitor_cache(c, impl, bump=None):
     """Property N5 on the implementation's answers alone.  The reference is the SPEC, re-derived from the op texts: an entry stored
     under (lower-cased name, type, class) at time t with smallest record TTL / negative TTL s may be served only while now < t + s."""
     bad = []
@@ -996,6 +1478,12 @@ def monitor_cache(c, impl):
             elif t[1] == "get":
                 e = ref.get(key)
                 a = l.split()
+                if bump and e is not None and not e.get("unknown"):
+                    d = now - (e["t"] + e["ttl"] * 1000)
+                    if d in (-1, 0, 1):
+                        bump("cache-get-at-expiry%+dms:%s" % (d, a[0] if a else "?"))
+                    tq = op.split()
+                    bump("cache-key-qtype:%s" % tq[3]); bump("cache-key-qclass:%s" % tq[4])
                 if a and a[0] == "hit":
                     hid = int(a[1])
                     if e is None:
@@ -1056,6 +1544,23 @@ def diff_snip(a, b):
 
 
 # ================================================================== run
+def confirm_timeouts(ctx, hb, part, solo=25):
+    """A watchdog that expires on a BATCH of thousands of cases says little on a loaded host: the case it expired on is run again
+    ALONE under a short watchdog; only a case that does not finish alone is reported as non-terminating (N4)."""
+    out = []
+    for c, impl, model in part:
+        if any(l == "crash:timeout" for l in impl):
+            c2 = dict(c)
+            c2.pop("crash", None)
+            (c3, impl2, model2), = ctx.lockstep("dns", hb, [c2], timeout=solo)
+            if not any(l == "crash:timeout" for l in impl2):
+                ctx.notes.append("a batch watchdog expired on a case that completes promptly when run alone (host load): not a finding")
+                out.append((c3, impl2, model2))
+                continue
+        out.append((c, impl, model))
+    return out
+
+
 def replay(ctx):
     """Re-run the op list of a replay file on the real code and the model; exit 1 if the failure is still there."""
     obj = json.load(open(ctx.replay))
@@ -1065,7 +1570,8 @@ def replay(ctx):
     if not ops:
         print("replay: nothing to run (kind=%s): the broken obligation is %s" % (obj.get("kind"), json.dumps(obj.get("broken"))[:400]))
         return 1 if ctx.violations else 0
-    transport = ops[0].startswith("resp ")
+    transport = ops[0].startswith("resp ") or ops[0].startswith("t ")
+    tcp = ops[0].startswith("t ")
     hb = ctx.build_harness("harness/c19_dns_transport.cpp" if transport else "harness/c19_dns.cpp", sanitize=True,
                            defines=[] if transport else ["_GLIBCXX_SANITIZE_VECTOR"])
     if not hb:
@@ -1084,14 +1590,18 @@ def replay(ctx):
     c = {"cat": cat, "ops": ops, "tag": obj.get("tag")}
     if obj.get("expected_by_reference"):
         c["expect"] = obj["expected_by_reference"]
-    if transport:
+    if tcp:
+        for k in ("msgs", "srv", "sid", "pending", "mode", "cap", "clean", "n_msgs"):
+            if k in obj:
+                c[k] = obj[k]
+    elif transport:
         w = unhex(ops[0].split()[3])
         c["wire_id"] = int.from_bytes(w[:2], "big") if len(w) >= 2 else None
         c["pending"] = [] if ops[0].split()[2] == "-" else [int(x) for x in ops[0].split()[2].split(",")]
     (c, impl, model), = ctx.lockstep("dns", hb, [c], timeout=120)
     for o, a, b in zip(ops, impl, model):
         print("op    %s\n impl  %s\n model %s" % (o[:200], a[:200], b[:200]))
-    fails = monitor_transport(c, impl) if transport else (monitor_cache(c, impl) if cat == "cache" else monitor_msg(c, impl))
+    fails = monitor_tcp(c, impl) if tcp else monitor_transport(c, impl) if transport else (monitor_cache(c, impl) if cat == "cache" else monitor_msg(c, impl))
     for f in fails:
         print("PROPERTY FAILS:", f[:300])
     still = bool(fails) or impl != model
@@ -1132,8 +1642,15 @@ def run(ctx: Ctx):
         cases += gen_gadget_cases(rng.fork("gadget"))
         cases += gen_valid_cases(rng.fork("valid"), 4000 * scale)
         cases += gen_large_cases(rng.fork("large"), 60 * scale)
+        cases += gen_rootptr_cases(rng.fork("rootptr"), 500 * scale)
+        cases += gen_deep_chain_cases(rng.fork("deepchain"), 12 * scale)
         cases += gen_name_cases(rng.fork("name"), 800 * scale)
         cases += gen_mutated_cases(rng.fork("mut"), 6000 * scale)
+        for k, c in enumerate(cases):
+            # the public vector wrapper on mutated / truncated input too (spare capacity of the vector is poisoned: a wrapper handing
+            # capacity() to the parser reads into it as soon as the counts exceed the content)
+            if c["cat"] == "mutated" and k % 6 == 0 and c["ops"][0].startswith("parse "):
+                c["ops"] = c["ops"] + ["parsev " + c["ops"][0][6:]]
         cases += gen_query_cases(rng.fork("query"), 600 * scale)
         cases += gen_cache_cases(rng.fork("cache"), 1000 * scale)
         # Phase 1: corpus, gadgets, chains (small, and the ones that would hang a decoder without loop detection) under a short
@@ -1151,7 +1668,7 @@ def run(ctx: Ctx):
                 hung = any(l == "crash:timeout" for _, impl, _ in part for l in impl)
                 res += part
         if not hung:
-            part = ctx.lockstep("dns", hb, first, timeout=60)
+            part = confirm_timeouts(ctx, hb, ctx.lockstep("dns", hb, first + [{"cat": "counters", "ops": ["counters"]}], timeout=60))
             hung = any(l == "crash:timeout" for _, impl, _ in part for l in impl)
             res += part
         else:
@@ -1161,21 +1678,56 @@ def run(ctx: Ctx):
             if hung:
                 ctx.notes.append("%d generated cases not run: the decoder did not terminate on an earlier input" % (len(rest) - i))
                 break
-            part = ctx.lockstep("dns", hb, rest[i:i + chunk], timeout=90 if quick else 300)
+            # every batch is one harness process: its branch counters (evidence only) are read by a last pseudo-case and summed
+            part = confirm_timeouts(ctx, hb, ctx.lockstep("dns", hb, rest[i:i + chunk] + [{"cat": "counters", "ops": ["counters"]}], timeout=120 if quick else 400))
             hung = any(l == "crash:timeout" for _, impl, _ in part for l in impl)
             res += part
         n_mismatch = 0
         skipped_after_crash_cap = 0
-        ptr_total = fwd_total = high_ptr = 0
+        ptr_total = fwd_total = high_ptr = root_ptr = 0
         max_chain = 0
+        branch = {}                  # measured from the implementation's answers: which branches the correspondence run reached
+
+        def bump(k, n=1):
+            branch[k] = branch.get(k, 0) + n
+        GROUPS = (("A", T_A), ("AAAA", T_AAAA), ("SRV", T_SRV), ("NAPTR", T_NAPTR), ("CNAME", T_CNAME), ("MX", T_MX), ("TXT", T_TXT), ("PTR", T_PTR), ("SOA", T_SOA))
         machinery = []
         mut_kinds = {}
         outcome = {}
         for c, impl, model in res:
+            if c["cat"] == "counters":
+                continue
             dist[c["cat"]] = dist.get(c["cat"], 0) + 1
             if "stats" in c:
                 ptr_total += c["stats"]["pointers"]; fwd_total += c["stats"]["forward"]; max_chain = max(max_chain, c["stats"]["max_chain"])
                 high_ptr += c["stats"].get("high_pointers", 0)
+                root_ptr += c["stats"].get("root_pointers", 0)
+            if c["cat"] == "rootptr":
+                for k in c.get("root_kinds", []):
+                    bump("rdata-name-root:" + k)
+            if c["cat"] == "chain" and c.get("hops"):
+                bump("valid-message-chain-hops:%d" % c["hops"])
+            if c["cat"] == "valid-large" and c.get("size", 0) > 50000:
+                bump("lockstep-message>50KB")
+            for op, l in zip(c["ops"], impl):
+                if l.startswith("ok h=") and c["cat"] != "cache":
+                    # typed records decoded per type / typed parser threw (raw record of a typed type without its typed record)
+                    f = dict(x.split("=", 1) for x in l.split(" ")[1:] if "=" in x)
+                    raws = [r.split(":") for sec in ("an", "ns", "ar") for r in (f.get(sec, "-").split(";") if f.get(sec, "-") != "-" else [])]
+                    for g, tn in GROUPS:
+                        nt = 0 if f.get(g, "-") == "-" else len(f[g].split(";"))
+                        nr = sum(1 for r in raws if len(r) > 1 and r[1] == str(tn))
+                        if nt:
+                            bump("typed-decoded:" + g, nt)
+                        if nr > nt:
+                            bump("typed-parser-threw:" + g, nr - nt)
+                    if f.get("ns", "-") == "-" and f.get("SOA", "-") != "-":
+                        bump("soa-outside-authority")
+                    hf = f.get("h", "").split(",")
+                    if len(hf) > 4 and hf[4] == "1":
+                        bump("tc-bit-set")
+                if c["cat"] == "cache" and op.startswith("c get"):
+                    bump("cache-get:" + l.split()[0])
             for k in c.get("mut", []):
                 mut_kinds[k] = mut_kinds.get(k, 0) + 1
             for l in impl:
@@ -1189,7 +1741,9 @@ def run(ctx: Ctx):
             if any(l == "crash:too-many-crashes" for l in impl):
                 skipped_after_crash_cap += 1          # the harness was not run on this case at all (vlib's crash cap): nothing to judge
                 continue
-            fails = monitor_cache(c, impl) if c["cat"] == "cache" else monitor_msg(c, impl)
+            if c["cat"] == "counters":
+                continue
+            fails = monitor_cache(c, impl, bump) if c["cat"] == "cache" else monitor_msg(c, impl)
             if fails and fails[0].startswith("MACHINERY"):
                 # the purge gate of the HARNESS timed out (load-sensitive): only a solo reproduction makes it a finding about the code
                 out2, rc2, _ = ctx.run_lines([hb], c["ops"], timeout=300)
@@ -1236,15 +1790,68 @@ def run(ctx: Ctx):
                                       % (c["ops"][0][:120], impl[0][:100], model[0][:100]),
                                       {"broken": {"correspondence": "dns lockstep (harness/c19_dns_transport.cpp vs Model/DnsTransport.lean)"},
                                        "ops": c["ops"], "observed": impl, "expected_by_model": model}, found_input=False)
+        if hbt and not hung:
+            tcp_cases = []
+            for fn in sorted(os.listdir(corpus_dir())) if os.path.isdir(corpus_dir()) else []:
+                if fn.endswith(".json"):
+                    cc = json.load(open(os.path.join(corpus_dir(), fn)))
+                    if cc.get("cat") == "tcp":
+                        cc["file"] = fn
+                        cc.setdefault("mode", "corpus")
+                        tcp_cases.append(cc)
+            tcp_cases += gen_tcp_cases(rng.fork("tcp"), 700 * scale)
+            tcp_cases.append({"cat": "counters", "ops": ["t counters"]})
+            modes = {}
+            for c, impl, model in ctx.lockstep("dns", hbt, tcp_cases, timeout=150 if quick else 900):
+                if c["cat"] == "counters":
+                    ctx.extra["transport_counters"] = dict(zip(("tcp_reads", "udp_reads", "completions", "closes", "tcp_fallback_resends", "results", "parse_errors", "reads_with_2+_completions"),
+                                                               impl[0].split()[1:])) if impl and impl[0].startswith("counters") else impl
+                    continue
+                dist["tcp-" + ("clean" if c.get("clean") else "dirty")] = dist.get("tcp-" + ("clean" if c.get("clean") else "dirty"), 0) + 1
+                modes[c["mode"]] = modes.get(c["mode"], 0) + 1
+                for k in c.get("kinds", []):
+                    bump("tcp-dirty:" + k)
+                ctx.count_case("\n".join(c["ops"]), nontrivial=any(("R:" in l or "E:" in l or "C:" in l) for l in impl))
+                if any(l == "crash:too-many-crashes" for l in impl):
+                    continue
+                for l in impl:
+                    ev = l.split(" | ")[0]
+                    if ev != "-" and not ev.startswith("ok"):
+                        for e in ev.split(";"):
+                            bump("transport-event:" + e[0])
+                        if sum(1 for e in ev.split(";") if e[0] in "RE") >= 2:
+                            bump("tcp-read-completing-2+-queries")
+                    elif " | buf=" in l:
+                        bump("transport-event:none")
+                fails = monitor_tcp(c, impl)
+                if fails:
+                    report_property(ctx, hbt, c, impl, model, fails)
+                elif impl != model:
+                    n_mismatch += 1
+                    if n_mismatch <= 3:
+                        i = next(i for i, (a, b) in enumerate(zip(impl, model)) if a != b)
+                        ctx.violation("correspondence", "model and implementation disagree on handleTcpData/handleUdpData: op `%s` impl=`%s` model=`%s`"
+                                      % (c["ops"][i][:120], impl[i][:100], model[i][:100]),
+                                      {"broken": {"correspondence": "dns lockstep (harness/c19_dns_transport.cpp vs Model/DnsTcp.lean)"},
+                                       "ops": c["ops"], "observed": impl, "expected_by_model": model}, found_input=False)
+            ctx.extra["tcp_segmentation_modes"] = modes
         if machinery:
             ctx.notes.append("%d cache histories not judged: harness purge gate timed out under load, not reproduced solo" % len(machinery))
         if not hung:
             cost_monitor(ctx, hb)
         ctx.extra["generator"] = {"pointers_emitted": ptr_total, "forward_pointers": fwd_total, "longest_pointer_chain_in_valid_messages": max_chain,
-                                  "pointers_to_offsets_above_0x07ff_in_valid_messages": high_ptr,
+                                  "pointers_to_offsets_above_0x07ff_in_valid_messages": high_ptr, "pointers_to_a_root_label_in_valid_messages": root_ptr,
+                                  "branches_reached": dict(sorted(branch.items())),
                                   "mutation_kinds": mut_kinds, "impl_outcomes": dict(sorted(outcome.items(), key=lambda kv: -kv[1])[:30])}
         # recorded finding F13A: replay its witness against the real code
         replay_known(ctx, hb, known_ids, carve_counts, hbt)
+        hc = {}
+        for c, impl, _ in res:
+            if c["cat"] == "counters" and impl and impl[0].startswith("counters"):
+                for x in impl[0].split()[1:]:
+                    k, v = x.split("=")
+                    hc[k] = hc.get(k, 0) + int(v)
+        ctx.extra["harness_counters"] = hc
         out, rc, err = ctx.run_lines([hb], ["c new 300", "c put 61 1 1 1 5", "c t 6000", "c purge", "c interposer"], timeout=60)
         ctx.extra["interposer_counts"] = out[-1] if out else "?"
         import re as _re
@@ -1271,17 +1878,27 @@ def run(ctx: Ctx):
                         "DnsCache default TTL in [0, 2^32) seconds",
                         "AAAA text form: inet_ntop/inet_pton (libc) round-trip the 16 RDATA bytes; the harness canonicalises the text through inet_pton",
                         "message size < 2^63 (offset arithmetic is modelled in Nat; checkBounds cannot wrap)",
-                        "processResponse is modelled for one server:port and a transport mode other than Both (no TCP fallback)",
-                        "cache operations are atomic steps: the translator checks on every run that each ExpiringCache method and the purge sweep use _cache only inside the scope of a "
-                        "lock_guard/unique_lock over _mutex (Gen.cacheLockedMethods, N5_lock_skeleton); the purge thread is modelled as an operation of the history",
+                        "server:port are part of the pending-query key (three servers in the lockstep); in transport mode Both the TCP connect/send of a fallback succeed (scripted engine)",
+                        "cache operations %sare atomic steps: the translator checks on every run that each ExpiringCache method and the purge sweep use _cache only inside the scope of a "
+                        "lock_guard/unique_lock over _mutex (Gen.cacheLockedMethods, N5_lock_skeleton); the purge thread is modelled as an operation of the history%s"
+                        % (("", "") if "def clearSwapUnderLock : Bool := true" in gen_text else
+                           ("other than clear ", "; DnsCache::clear replaces the cache_ pointer with NO lock (Gen.clearSwapUnderLock = false), so it is atomic only when no other "
+                                                 "cache operation runs concurrently (the property's quantifier is sequences of operations)")),
+                        "TCP: no single read trips the growth check buffer.size() + data.size() > maxTcpBufferSize (hypothesis Fits of N6_tcp_segmentation); messages are non-empty",
                         "names: at most 128 compression pointers are followed per name (documented bound DNS_MAX_COMPRESSION_JUMPS; longer chains, legal per RFC 1035, are rejected by design)"]
     return ctx.finish(level="proof", rule="a case = one op list (parse/name/rdname/enc/query ops on one generated or mutated message, or one cache history on a fresh DnsCache); "
                       "distinct = distinct op lists; non-trivial = at least one answer other than `err tooShort`")
 
 
 NOT_PROVED = [
-    "N2 typed exactness for SOA and NAPTR records (validated by lockstep + the reference-encoder monitor only; A, AAAA, TXT, CNAME, PTR, MX, SRV and the whole-response theorem are proved)",
-    "N6: the UDP-truncation -> TCP-fallback branch of processResponse (transport mode Both; re-sends on a live socket) is not modelled; the lockstep runs with transportMode = UDP",
+    "N6f: the TCP-fallback branch is modelled for the decision and the re-send (handleUdpDataBoth, sendTcpQuery's session lookup/connect); a failing connect()/send() inside sendTcpQuery "
+    "(exception caught by processResponse, query completed with an error) and the timeout timers are not modelled",
+    "N6t: N6_tcp_segmentation needs `Fits` (no single read trips buffer.size() + data.size() > maxTcpBufferSize); with the default limit 65536 a message of 65535 bytes "
+    "(65537 with its prefix) can never be received — it closes the session (a rejection, allowed by the property; stated, not proved as a theorem)",
+    "parse(): `reserve(count)` with header counts of 0xFFFF allocates 65535 x sizeof(record) per section before the first record fails (about 5 MB per section, at most four sections: "
+    "bounded by a constant, not by the message size; allocation is not part of the model)",
+    "DnsCache::clear swaps the cache_ unique_ptr without a lock (Gen.clearSwapUnderLock = false): clear || put/get on two threads is a data race; the property quantifies over "
+    "SEQUENCES of operations, which the model and N5 cover; concurrent clear is outside it (observation, reachable via DnsClient::clearCache while queryAsync completes)",
     "inet_ntop text form of AAAA addresses (libc; the harness canonicalises through inet_pton)",
 ]
 
@@ -1387,6 +2004,9 @@ def report_property(ctx, hb, c, impl, model, fails, extra=None):
            "failures": fails[:5], "category": c["cat"], "tag": c.get("tag")}
     if c.get("crash"):
         obj["crash"] = c["crash"]
+    for k in ("msgs", "srv", "sid", "pending", "mode", "cap", "clean", "n_msgs"):
+        if c["cat"] == "tcp" and k in c:
+            obj[k] = c[k]
     if extra:
         obj.update(extra)
     ctx.violation("property", fails[0], obj, found_input=True)
@@ -1443,8 +2063,8 @@ def load_corpus():
         for fn in sorted(os.listdir(d)):
             if fn.endswith(".json"):
                 c = json.load(open(os.path.join(d, fn)))
-                if c.get("cat") == "transport-witness":
-                    continue                      # replayed by replay_known() through the transport harness
+                if c.get("cat") in ("transport-witness", "tcp"):
+                    continue                      # replayed by replay_known() / run with the tcp cases through the transport harness
                 c.setdefault("cat", "corpus")
                 c["file"] = fn
                 out.append(c)
